@@ -164,7 +164,10 @@ func runC09(c *core.Ctx) {
 	c09Restart(c)
 }
 
-func c09Heartbeat(c *core.Ctx) {
+func c09Heartbeat(c *core.Ctx) { c09HeartbeatAs(c, "R2") }
+
+// c09HeartbeatAs runs the heartbeat re-registration rule under the given rule id (shared with C08.R8).
+func c09HeartbeatAs(c *core.Ctx, R string) {
 	pkg := c.Prog.Pkg("ring")
 	type site struct {
 		fn, own         string
@@ -173,7 +176,7 @@ func c09Heartbeat(c *core.Ctx) {
 	for _, s := range []site{{"Lifecycler.updateConsul", "recv.ID", 3, 4}, {"BasicLifecycler.updateInstance", "recv.cfg.ID", 3, 4}} {
 		fn := an.FindFunc(pkg, s.fn)
 		if fn == nil {
-			c.Miss("R2", "func="+s.fn, "not found")
+			c.Miss(R, "func="+s.fn, "not found")
 			continue
 		}
 		c.Analysed(fn.String())
@@ -195,7 +198,7 @@ func c09Heartbeat(c *core.Ctx) {
 				return true
 			})
 			if existsCanon == "" {
-				c.Undec("R2", "func="+lf.Name, lf.Pos(), "own-entry lookup not found")
+				c.Undec(R, "func="+lf.Name, lf.Pos(), "own-entry lookup not found")
 				continue
 			}
 			vals := map[string][]string{}
@@ -223,10 +226,10 @@ func c09Heartbeat(c *core.Ctx) {
 			remembered := map[string]bool{"recv.getTokens()": true, "recv.GetTokens()": true}
 			okMissing := len(vals["F"]) == 1 && remembered[vals["F"][0]]
 			okPresent := len(vals["T"]) == 1 && (vals["T"][0] == "<unreachable>" || vals["T"][0] == entryCanon+".Tokens")
-			c.Check(okMissing, "R2", "func="+lf.Name+":missing", add.Expr.Pos(), fmt.Sprintf("own entry missing: AddIngester tokens ∈ %v (must be the lifecycler's remembered tokens)", vals["F"]), 1)
-			c.Check(okPresent, "R2", "func="+lf.Name+":present", add.Expr.Pos(), fmt.Sprintf("own entry present: AddIngester tokens ∈ %v (must be the tokens recorded in the ring entry %s.Tokens, or no AddIngester at all)", vals["T"], entryCanon), 1)
+			c.Check(okMissing, R, "func="+lf.Name+":missing", add.Expr.Pos(), fmt.Sprintf("own entry missing: AddIngester tokens ∈ %v (must be the lifecycler's remembered tokens)", vals["F"]), 1)
+			c.Check(okPresent, R, "func="+lf.Name+":present", add.Expr.Pos(), fmt.Sprintf("own entry present: AddIngester tokens ∈ %v (must be the tokens recorded in the ring entry %s.Tokens, or no AddIngester at all)", vals["T"], entryCanon), 1)
 			stc := lf.Canon(add.Expr.Args[s.stArg])
-			c.Check(stc == "recv.GetState()", "R2", "func="+lf.Name+":state", add.Expr.Pos(), "state re-published = "+stc+" (the lifecycler's remembered state)", 1)
+			c.Check(stc == "recv.GetState()", R, "func="+lf.Name+":state", add.Expr.Pos(), "state re-published = "+stc+" (the lifecycler's remembered state)", 1)
 		}
 	}
 }
